@@ -749,11 +749,213 @@ class Judge:
             self.fail(f'text-control-char:{name}:{kind}', f'a text event holds control characters {[hex(ord(c)) for c in cc]}', case)
 
 
+# ------------------------------------------------------------------------------- abstraction of UPDATEs and events (model inputs)
+
+def copt(x, f):
+    return 'None' if x is None else f'(Some {f(x)})'
+
+
+def cstr(s):
+    return zlist(cps(s))
+
+
+def abstract_update(enc, uc):
+    """a real UpdateCollection / EOR -> the model's `upd` (fragments = what the per-class json() methods return)"""
+    if getattr(uc, 'IS_EOR', False):
+        return {'eor': enc._nlri_to_json(uc.nlris[0]), 'ann': [], 'wd': [], 'attr': None}
+    ann = []
+    for routed in uc.announces:
+        fam = routed.nlri.family().afi_safi()
+        ann.append((f'{fam[0]} {fam[1]}', str(routed.nexthop), enc._nlri_to_json(routed.nlri, routed.nexthop)))
+    wd = []
+    for nlri in uc.withdraws:
+        fam = nlri.family().afi_safi()
+        wd.append((f'{fam[0]} {fam[1]}', enc._nlri_to_json(nlri)))
+    attr = None if not uc.attributes else uc.attributes.json(include_nexthop=bool(wd), generic=enc.generic_attribute_format)
+    return {'eor': None, 'ann': ann, 'wd': wd, 'attr': attr}
+
+
+def coq_upd(a):
+    ann = '[' + '; '.join(f'({cstr(f)}, ({cstr(n)}, {cstr(j)}))' for f, n, j in a['ann']) + ']'
+    wd = '[' + '; '.join(f'({cstr(f)}, {cstr(j)})' for f, j in a['wd']) + ']'
+    return f'(mkUpd {copt(a["eor"], cstr)} {ann} {wd} {copt(a["attr"], cstr)})'
+
+
+def upd_size(a):
+    return sum(len(f) + len(n) + len(j) for f, n, j in a['ann']) + sum(len(f) + len(j) for f, j in a['wd']) + len(a['attr'] or '') + len(a['eor'] or '')
+
+
+class _StubFamily:
+    def __init__(self, fam):
+        self.fam = fam
+
+    def afi_safi(self):
+        return self.fam
+
+
+class StubNlri:
+    """an NLRI reduced to what JSON._update reads: its family and its json fragment"""
+
+    def __init__(self, fam, frag):
+        self.fam, self.frag = fam, frag
+
+    def family(self):
+        return _StubFamily(self.fam)
+
+    def json(self, compact=None):
+        return self.frag
+
+    def v4_json(self, compact=None, nexthop=None):
+        return self.frag
+
+
+class StubRouted:
+    def __init__(self, nlri, nexthop):
+        self.nlri, self.nexthop = nlri, nexthop
+
+
+class StubAttributes:
+    def __init__(self, content, empty):
+        self.content, self.empty = content, empty
+
+    def __bool__(self):
+        return not self.empty
+
+    def json(self, include_nexthop=False, generic=False):
+        return self.content
+
+
+class StubUpdate:
+    IS_EOR = False
+
+    def __init__(self, announces, withdraws, attributes):
+        self.announces, self.withdraws, self.attributes = announces, withdraws, attributes
+        self.nlris = [r.nlri for r in announces] + list(withdraws)
+
+
+def stub_updates(rng, n):
+    """abstract messages: any number of families / next hops / routes in any interleaving, with and without attributes"""
+    from exabgp.protocol.family import AFI, SAFI
+
+    fams = [(AFI.ipv4, SAFI.unicast), (AFI.ipv6, SAFI.unicast), (AFI.ipv4, SAFI.mpls_vpn), (AFI.l2vpn, SAFI.evpn), (AFI.ipv4, SAFI.flow_ip),
+            (AFI.ipv6, SAFI.nlri_mpls)]
+    nhs = ['10.0.0.1', '10.0.0.2', '2001:db8::1', '', 'self', '0.0.0.0']
+    out = []
+    for i in range(n):
+        k_f, k_n = rng.choice([1, 1, 2, 3, 6]), rng.choice([1, 1, 2, 3, 6])
+        n_a = rng.choice([0, 0, 1, 2, 3, 5, 9])
+        n_w = rng.choice([0, 0, 1, 2, 4])
+        ann = []
+        for j in range(n_a):
+            fam = rng.choice(fams[:k_f])
+            frag = rng.choice(['{ "nlri": "10.%d.0.0/16" }' % j, '{ "nlri": "10.%d.0.0/16", "path-information": "0.0.0.%d" }' % (j, j), '"x%d"' % j, '%d' % j,
+                               '[ %d, { "a": null } ]' % j, '{  }'])
+            ann.append(StubRouted(StubNlri(fam, frag), rng.choice(nhs[:k_n])))
+        wd = [StubNlri(rng.choice(fams[:k_f]), '{ "nlri": "192.168.%d.0/24" }' % j) for j in range(n_w)]
+        mode = rng.choice(['none', 'empty-content', 'one', 'two'])
+        attrs = StubAttributes({'none': '', 'empty-content': '', 'one': '"origin": "igp"', 'two': '"origin": "igp", "med": 5'}[mode], mode == 'none')
+        out.append(StubUpdate(ann, wd, attrs))
+    # the corner cases, always present
+    a = StubAttributes('"origin": "igp"', False)
+    none = StubAttributes('', True)
+    r1 = StubRouted(StubNlri(fams[0], '{ "nlri": "10.0.0.0/8" }'), '10.0.0.1')
+    out += [StubUpdate([], [], a), StubUpdate([], [], none), StubUpdate([r1], [], none), StubUpdate([], [r1.nlri], none), StubUpdate([r1], [r1.nlri], a),
+            StubUpdate([r1, StubRouted(StubNlri(fams[1], '1'), '10.0.0.1'), StubRouted(StubNlri(fams[0], '2'), '10.0.0.1')], [], a)]
+    return out
+
+
+def coq_peer(neighbor):
+    rid = neighbor.session.router_id
+    return (f'(mkPeer {cstr(str(neighbor.session.local_address))} {cstr(str(neighbor.session.peer_address))} {int(neighbor.session.local_as)} '
+            f'{int(neighbor.session.peer_as)} {copt(str(rid) if rid else None, cstr)})')
+
+
+def event_cases(impl, rng, hostiles, updates, n_updates):
+    """(Coq expression of the model's event line, the real encoder's line) for the event kinds the model builds"""
+    import socket
+    from exabgp.bgp.message import Message
+    from exabgp.bgp.message.open.capability.negotiated import Negotiated
+    from exabgp.reactor.api.response.json import JSON
+    from exabgp.util import hexstring
+    from exabgp.bgp.fsm import FSM
+
+    fixed_time = 1700000000.25
+    cases = []
+    for label in ('json6', 'json4'):
+        enc = impl.encoders[label]
+        inner = enc._v6 if hasattr(enc, '_v6') else enc
+        saved = inner.time
+        inner.time = lambda t: fixed_time
+        env = f'(mkEnv {cstr(impl.versions[label])} {cstr(str(fixed_time))} {cstr(socket.gethostname())} {os.getpid()} {os.getppid()})'
+        try:
+            for nk in ('as4', 'as2', 'ap'):
+                neighbor, nin = impl.neighbors[nk]
+                peer = coq_peer(neighbor)
+
+                def counter():
+                    return JSON._count.get(neighbor.uid, 0)
+
+                def opt_hex(b):
+                    return copt(hexstring(b) if b else None, cstr)
+
+                real = enc.up(neighbor)
+                cases.append((f'ev_state {env} {counter()} t_state {peer} {cstr("up")}', real, 'up'))
+                real = enc.connected(neighbor)
+                cases.append((f'ev_state {env} {counter()} t_state {peer} {cstr("connected")}', real, 'connected'))
+                for st in list(FSM.STATE)[:3]:
+                    fsm = FSM(None, st)
+                    real = enc.fsm(neighbor, fsm)
+                    cases.append((f'ev_state {env} {counter()} {cstr("fsm")} {peer} {cstr(fsm.name())}', real, 'fsm'))
+                for h in rng.sample(hostiles, 6):
+                    reason = h.decode('utf-8', 'replace')
+                    real = enc.down(neighbor, reason)
+                    cases.append((f'ev_down {env} {counter()} {peer} {cstr(reason)}', real, 'down'))
+                for hdr, bdy in ((b'', b''), (header_of(4, b''), b''), (header_of(4, b'x'), b'x')):
+                    real = enc.keepalive(neighbor, 'receive', hdr, bdy, nin)
+                    cases.append((f'ev_keepalive {env} {counter()} {opt_hex(hdr)} {opt_hex(bdy)} {peer} {cstr("receive")}', real, 'keepalive'))
+                for h in rng.sample(hostiles, 6):
+                    body = rng.choice([bytes([6, 2, len(h[:100])]) + h[:100], bytes([2, 0]) + h, bytes([6, 4, 0])])
+                    try:
+                        msg = Message.unpack(3, body, nin)
+                    except Exception:
+                        continue
+                    hdr = rng.choice([b'', header_of(3, body)])
+                    bdy = body if hdr else b''
+                    real = enc.notification(neighbor, 'send', msg, hdr, bdy, nin)
+                    text = msg.data.decode('utf-8', 'replace')
+                    cases.append((f'ev_notification {env} {counter()} {opt_hex(hdr)} {opt_hex(bdy)} {peer} {cstr("send")} {int(msg.code)} {int(msg.subcode)} '
+                                  f'{cstr(hexstring(msg.data))} {cstr(text)}', real, 'notification'))
+            # update events on decoded messages (their own session)
+            for nk, code, body in updates[:n_updates]:
+                neighbor, nin = nk if isinstance(nk, tuple) else impl.neighbors[nk]
+                try:
+                    msg = Message.unpack(2, body, nin)
+                    target = msg if getattr(msg, 'IS_EOR', False) else msg.data
+                except Exception:
+                    continue
+                with_neg = rng.random() < 0.5
+                hdr = rng.choice([b'', header_of(2, body)])
+                bdy = body if hdr else b''
+                real = enc.update(neighbor, 'receive', target, hdr, bdy, nin if with_neg else Negotiated.UNSET)
+                a = abstract_update(inner, target)
+                negf = inner._negotiated(nin)['negotiated'] if with_neg else None
+                cnt = JSON._count.get(neighbor.uid, 0)
+                cases.append((f'ev_update {env} {cnt} {copt(hexstring(hdr) if hdr else None, cstr)} {copt(hexstring(bdy) if bdy else None, cstr)} '
+                              f'{coq_peer(neighbor)} {cstr("receive")} {coq_upd(a)} {copt(negf, cstr)}', real, 'update'))
+            real = enc.shutdown()
+            cases.append((f'global_event {env} k_notification [(k_notification, json_string {cstr("shutdown")})]', real, 'shutdown'))
+        finally:
+            inner.time = saved
+    return cases
+
+
 # ------------------------------------------------------------------------------- Coq side
 
 HEADER = """From Coq Require Import ZArith Bool List.
-From ExaV Require Import gen.Gen_JsonKeys model.Model_Json proofs.Proofs_Json.
+From ExaV Require Import gen.Gen_JsonKeys model.Model_Json proofs.Proofs_Json model.Model_JsonEvent.
 Import ListNotations. Open Scope Z_scope.
+Definition upd_ok (c : upd * list Z) : bool := list_eqb (update_message (fst c)) (snd c).
+Definition ev_ok (c : list Z * list Z) : bool := list_eqb (fst c) (snd c).
 Fixpoint bad {A} (f : A -> bool) (l : list A) (i : nat) : list nat :=
   match l with [] => [] | c :: l' => if f c then bad f l' (S i) else i :: bad f l' (S i) end.
 Definition esc_ok (c : list Z * list Z) : bool := list_eqb (escape (fst c)) (snd c).
@@ -772,7 +974,7 @@ def cps(s):
     return [ord(c) for c in s]
 
 
-def eval_coq(esc_cases, one_cases, obj_cases, wf_cases, tag):
+def eval_coq(esc_cases, one_cases, obj_cases, wf_cases, tag, upd_cases=(), ev_cases=()):
     """-> dict(ran, esc_bad, one_bad, obj_bad, wf_bad, table, logs)"""
     def budget(items, size, limit=45000):
         shards, cur, tot = [], [], 0
@@ -822,6 +1024,10 @@ def eval_coq(esc_cases, one_cases, obj_cases, wf_cases, tag):
         'list (list Z * val) * list Z', lambda c: 2 * len(c[1]) + 8, 'obj')
     r4, res['wf_bad'] = run_group(wf_cases, lambda c: f'({zlist(cps(c[0]))}, {"true" if c[1] else "false"})', 'wf_ok', 'list Z * bool',
                                   lambda c: len(c[0]) + 4, 'wf')
+    r5, res['upd_bad'] = run_group(list(upd_cases), lambda c: f'({coq_upd(c[0])}, {cstr(c[1])})', 'upd_ok', 'upd * list Z',
+                                   lambda c: upd_size(c[0]) * 2 + len(c[1]) + 20, 'upd')
+    r6, res['ev_bad'] = run_group(list(ev_cases), lambda c: f'({c[0]}, {cstr(c[1])})', 'ev_ok', 'list Z * list Z',
+                                  lambda c: len(c[0]) // 3 + 2 * len(c[1]) + 20, 'ev')
     rc, raw = common.coq_eval_file(
         HEADER,
         'Eval vm_compute in [b2n (attr_keys_ok attr_key_table); b2n (same_rows attr_key_table pinned_attr_key_table); '
@@ -831,7 +1037,7 @@ def eval_coq(esc_cases, one_cases, obj_cases, wf_cases, tag):
     res['table'] = common.nat_list_of(parsed[0]) if parsed else None
     if rc != 0:
         res['logs'].append(raw[-1500:])
-    res['ran'] = r1 and r2 and r3 and r4 and res['table'] is not None and len(res['table']) == 4
+    res['ran'] = r1 and r2 and r3 and r4 and r5 and r6 and res['table'] is not None and len(res['table']) == 4
     return res
 
 
@@ -1114,7 +1320,37 @@ def check(tier, seed):
         if rng.random() < 0.4:
             s = mutate_text(rng, s)
         wf_cases.append((s, strict_accepts(s)))
-    coq = eval_coq(esc_cases, one_cases, obj_cases, wf_cases, 'c13')
+    # JSON._update against Model_JsonEvent.update_message: abstract (stub) messages, then real decoded UPDATEs
+    upd_cases, ev_cases, upd_notes = [], [], collections.Counter()
+    try:
+        inners = [impl.encoders['json6'], impl.encoders['json4']._v6]
+        for stub in stub_updates(rng, 400 if thorough else 120):
+            for enc in inners:
+                upd_cases.append((abstract_update(enc, stub), enc._update(stub)['message']))
+                upd_notes['stub'] += 1
+        pool = []
+        try:
+            pool = [(nk, c, b) for _, nk, b, c in bodies if c == 2] + [((nb, ng), 2, b) for _, nb, ng, b in confs]
+        except NameError:
+            pass
+        rng.shuffle(pool)
+        from exabgp.bgp.message import Message as _Msg
+
+        for nk, code, body in pool[: (400 if thorough else 90)]:
+            nb_, nin_ = nk if isinstance(nk, tuple) else impl.neighbors[nk]
+            try:
+                msg = _Msg.unpack(2, body, nin_)
+                target = msg if getattr(msg, 'IS_EOR', False) else msg.data
+            except Exception:
+                continue
+            enc = rng.choice(inners)
+            upd_cases.append((abstract_update(enc, target), enc._update(target)['message']))
+            upd_notes['decoded'] += 1
+        ev_cases = event_cases(impl, rng, hostiles, pool[::-1], 60 if thorough else 14)
+        run.obligation('abstraction of UPDATEs and events for the model ran', True)
+    except Exception:
+        run.obligation('abstraction of UPDATEs and events for the model ran', False, traceback.format_exc()[-2000:])
+    coq = eval_coq(esc_cases, one_cases, obj_cases, wf_cases, 'c13', upd_cases, [(e, r) for e, r, _ in ev_cases])
     t_coq = time.time() - t0
     run.obligation('Coq evaluation of the model (vm_compute) ran on every shard', coq['ran'], '\n'.join(coq['logs'])[-2000:])
     if coq['ran']:
@@ -1133,6 +1369,17 @@ def check(tier, seed):
                        not coq['obj_bad'], f'{len(coq["obj_bad"])} differ')
         run.obligation(f'correspondence: wf_json = strict python parser on {len(wf_cases)} texts ({len(sample)} real event lines, their mutants, grammar texts)',
                        not coq['wf_bad'], f'{len(coq["wf_bad"])} differ')
+        for i in coq['upd_bad'][:5]:
+            run.fail_case('model-disagrees:update_message', 'Model_JsonEvent.update_message differs from JSON._update on the same (abstracted) message',
+                          {'abstract': upd_cases[i][0], 'impl': upd_cases[i][1][:1500]})
+        for i in coq['ev_bad'][:5]:
+            run.fail_case(f'model-disagrees:event:{ev_cases[i][2]}', 'the model of the event line (envelope + content) differs from the encoder output',
+                          {'model_expr': ev_cases[i][0][:1500], 'impl': ev_cases[i][1][:1500]})
+        run.obligation(f'correspondence: update_message = JSON._update on {len(upd_cases)} messages ({dict(upd_notes)}; grouping by family / next hop, commas, '
+                       f'attributes-only, empty, EOR; v6 and v4 fragments)', not coq['upd_bad'], f'{len(coq["upd_bad"])} differ')
+        kinds = collections.Counter(k for _, _, k in ev_cases)
+        run.obligation(f'correspondence: modelled event lines (_header/_neighbor/_kv + event kinds) = encoder output on {len(ev_cases)} events {dict(kinds)}',
+                       not coq['ev_bad'], f'{len(coq["ev_bad"])} differ')
         keys_ok, same_pinned, kept_empty, latin1_ok = coq['table']
         run.coverage['regenerated_tables'] = {'attr_keys_ok': bool(keys_ok), 'attribute_key_table_is_the_pinned_one': bool(same_pinned),
                                               'oneline_keeps_no_latin1': bool(kept_empty), 'latin1_ascii_encodable_after_oneline': bool(latin1_ok)}
